@@ -376,7 +376,8 @@ pub fn c14(tier: &str) -> i32 {
 pub fn c05_env_part(out: &mut Outcome, t: bool) {
     let cl = Clauses { sched: true, model: true, ..Default::default() };
     let s = if t { 5 } else { 4 };
-    for step_size in [1u64, 2, 3] {
+    // (step size 0: every step jumps back to where it started; step size 3 in the thorough tier only)
+    for step_size in if t { vec![0u64, 1, 2, 3] } else { vec![0u64, 1, 2] } {
         // (thorough: five submissions for step size 1 only - 10^8 nodes, 5*10^9 plain replays per configuration)
         let s = if step_size == 1 { s } else { 4 };
         let mut c = ecfg(&format!("Env<3>: step size {} < batch, two steps", step_size), false, &[1], step_size, s, 2, 0, &cl);
